@@ -92,11 +92,16 @@ async def _brk(self, x, tag):
     return x * 10
 K.brk = _brk
 TASKS = {}
+@icontract.require(lambda: True)
+def checked_nop():
+    return 0
 async def _spawn_detached(self, calls):
     # fire and forget: the children are created inside the body of a public method of THIS object and run after it returned
     loop = asyncio.get_running_loop()
     for lab, coro in calls:
         TASKS[lab] = loop.create_task(coro)
+    # the parent goes on with other checked calls while its own call is still in flight (its marks are re-built meanwhile)
+    checked_nop()
     return 0
 K.spawn_detached = _spawn_detached
 async def _spawn(self, calls):
@@ -172,6 +177,8 @@ TASK_CALLS = {
     "af:viol+viol": [("af", -1), ("af", -2)],
     "af:pass+postviol": [("af", 1), ("af", 7)],
     "brk_spawner+am_other": [("brk0", 1), ("am1", 1)],
+    "am_spawner+brk_spawner": [("am0", 1), ("brk0", 1)],
+    "brk_spawner+am_spawner": [("brk0", 1), ("am0", 1)],
     "am_same:pass+viol": [("am0", 1), ("am0", -1)],
     "am_same:viol+pass": [("am0", -1), ("am0", 1)],
     "am_two:pass+viol": [("am0", 1), ("am1", -1)],
@@ -306,6 +313,10 @@ def check_task_scenario(sc, acc, budget):
             return
         for lab in labels:
             want_r, want_log = reference[lab]
+            if cl[labels.index(lab)][0].startswith("am") and any(k.startswith("brk") and k[3] == cl[labels.index(lab)][0][2] for k, _ in cl):
+                # another participant breaks the invariant of the very object this call is made on: the verdict of this call
+                # legitimately depends on the STATE of the object at the time of its checks; only the breaker is judged
+                continue
             got_r = rec.results.get(lab)
             got_log = [ev for ev in log if ev[0] == lab]
             if got_r != want_r or got_log != want_log:
